@@ -34,6 +34,10 @@ namespace PSC {
         const unsigned long id;
 
         const bool isFunctionCtx, isCompositeCtx;
+
+        // only for the context of a record value: where the type names used by its record type are looked up
+        // when they are not to be looked up from the declaring context (see Composite::Composite)
+        Context *typeScope = nullptr;
         std::unique_ptr<NodeResult> returnValue;
         const PSC::DataType returnType;
 
